@@ -252,10 +252,17 @@ def units(tier, seed):
     names = gen.NAMED
     for i in range(4):
         out.append(("named-sigs", {"names": names[i::4], "examples": 100 if q else 2500}))
+    out.append(("faults", {"jobset": 'keys', "arg": 'NIST192p', "examples": 40 if tier == "quick" else 1500, "triples": 400 if tier == "quick" else 20000}))
+    out.append(("faults", {"jobset": 'keys', "arg": 'SECP160r1', "examples": 40 if tier == "quick" else 1500, "triples": 400 if tier == "quick" else 20000}))
+    out.append(("faults", {"jobset": 'keys', "arg": 't23a', "examples": 40 if tier == "quick" else 1500, "triples": 400 if tier == "quick" else 20000}))
     return out
 
 
 def run_unit(ctx, name, **kw):
+    if name == "faults":
+        from . import faults
+        faults.run_set(ctx, **kw)
+        return
     if name == "interleaved":
         from .purity import interleaved_pure
         RR.selfcheck()
@@ -308,6 +315,10 @@ def run_unit(ctx, name, **kw):
 
 
 def replay(ctx, case):
+    if case.get("kind") == "fault-history":
+        from . import faults
+        faults.replay(ctx, case)
+        return
     RR.selfcheck()
     if case.get("kind") == "interleaved":
         from .purity import interleaved_pure
